@@ -10,7 +10,7 @@ META = {
     "technique": "Coq proofs over Gaussian rationals (wire-cut identity with PennyLane's measure/prepare tables, single cut with environments of any size, k parallel cuts by tensor induction, contraction independent of operand/index order) + correspondence: the implementation's qcut_processing_fn against the Gallina contraction model on the real communication graphs, and the real cut_circuit pipeline against an exact Coq-simulated uncut reference",
     "design_ref": "DESIGN.md §3 C24",
     "text": "Theorems (Props/C24.v, closed under the global context): every 2x2 matrix is 1/2 sum_P tr(P rho) P; each Pauli is the CHANGE_OF_BASIS combination of the four prepared states |0>,|1>,|+>,|+i> and the PREPARE_SETTINGS circuits produce exactly those states; for upstream/downstream fragments with environments of ANY size and arbitrary operators the executable contraction model (the one compared with the implementation) applied to the two fragments' results equals the uncut expectation; k parallel cuts between two fragments for all k; the contraction does not depend on the order of fragments or of index assignments; the eight cut_circuit_mc settings resolve the identity channel with weights +-1/2. Tie on every run: (a) CHANGE_OF_BASIS, PREPARE_SETTINGS, MC tables exported from /repo equal the model's; (b) cut_circuit (raw tape transform) on generated circuits of 3-6 wires with 1-3 WireCuts (also two-wire WireCuts, ineffective cuts, disconnected pieces) and KaHyPar-placed cuts: the returned communication graph / prepare_nodes / measure_nodes plus random dyadic fragment results are evaluated by the implementation's qcut_processing_fn and by the Gallina model inside Coq (vm_compute); (c) every configuration tape prepares / measures the setting its position in the result vector stands for (4^prep x 3^meas tapes, product order, partition_pauli_group grouping), decoded semantically from the tapes; (d) fragment tapes are simulated EXACTLY in Coq (Q(zeta_8)), the exact expectation values are fed to the implementation's post-processing and must equal the exact uncut expectation (1e-9); (e) the full QNode pipeline on default.qubit (Pauli words and sums, manual and automatic cuts) equals the exact uncut value (1e-9); (f) cut_circuit_mc: 6-sigma bound with the exactly known single-shot variance 16^K - mu^2 (numeric/statistical only).",
-    "note": "Trusted: Coq kernel; exactsim post-processing (numpy on exact amplitudes); the harness' extraction of edge/axis incidence from node uids. Modelled, not proved from source: the per-tensor factors 2^(-n/2) are represented by their rational total (1/2)^cuts; the einsum symbol allocation loop of contract_tensors is specified (one summed index per edge), not transcribed; partition_pauli_group's order is an oracle read from the tapes and compared with an independent enumeration. Not covered by proof: general multi-fragment topologies (sequential cuts, cycles) are validated per generated instance by (b),(d),(e) only; the automatic cutter is an oracle (any cut it returns is checked through (b),(e)); cut_circuit_mc only statistically; gradients/interfaces other than numpy and use_opt_einsum=True only via one pipeline case each when available.",
+    "note": "Trusted: Coq kernel; exactsim post-processing (numpy on exact amplitudes); the harness' extraction of edge/axis incidence from node uids. Modelled, not proved from source: the per-tensor factors 2^(-n/2) are represented by their rational total (1/2)^cuts; the einsum symbol allocation loop of contract_tensors is specified (one summed index per edge), not transcribed; partition_pauli_group's order is an oracle read from the tapes and compared with an independent enumeration. Not covered by proof: general multi-fragment topologies (sequential cuts, cycles) are validated per generated instance by (b),(d),(e) only; the automatic cutter is an oracle (any cut it returns is checked through (b),(e)); cut_circuit_mc only statistically; gradients and interfaces other than numpy are not exercised; use_opt_einsum=True only through every third pipeline case (numeric); WireCut inside nested templates (max_depth expansion) not generated.",
     "assumptions": ["default.qubit float error below 1e-9 for <= 6 wires"],
     "trusted": ["harness/exactsim.py post-processing", "translator harness/qx.py (gate matrices to exact constants)"],
 }
@@ -224,6 +224,10 @@ def _run(ctx, sess, payload):
             ctx.violation(key_of("pipeline:", [c["ops"], c["terms"]]),
                           {"n": c["n"], "ops": c["ops"], "terms": c["terms"], "cut_circuit": c["pipeline"], "exact_uncut": ex, "default_qubit_uncut": c["dq_uncut"]},
                           what="qp.cut_circuit(qnode)() differs from the exact uncut expectation value")
+        if "pipeline_opt" in c and abs(c["pipeline_opt"] - ex) > 1e-9:
+            ctx.violation(key_of("pipeline-opt-einsum:", [c["ops"], c["terms"]]),
+                          {"n": c["n"], "ops": c["ops"], "terms": c["terms"], "cut_circuit": c["pipeline_opt"], "exact_uncut": ex},
+                          what="qp.cut_circuit(qnode, use_opt_einsum=True)() differs from the exact uncut expectation value")
         for ti, st in enumerate(c["t"]):
             ext = exact_uncut(c, [[1.0, c["terms"][ti][1]]])
             if abs(st["dq"] - ext) > 1e-9:
@@ -269,7 +273,7 @@ def _run(ctx, sess, payload):
             ctx.violation(key_of("exactpost:", [c["ops"], c["terms"], ti]),
                           {"n": c["n"], "ops": c["ops"], "term": c["terms"][ti], "qcut_processing_fn_on_exact_fragment_results": r["value"], "exact_uncut": ext},
                           what="the implementation's post-processing applied to EXACT fragment expectation values does not give the exact uncut expectation value")
-    nmc = 0
+    nmc, mc_fail = 0, []
     for m, r in zip(mcs, post["mc"]):
         if r["status"] != "ok":
             ctx.violation(key_of("mc-error:", [m["ops"], m["seed"]]), {"ops": m["ops"], "detail": r.get("detail")}, what="cut_circuit_mc raised")
@@ -278,10 +282,30 @@ def _run(ctx, sess, payload):
         K = m["cuts"]
         sigma = math.sqrt(max(16.0 ** K - m["exact_value"] ** 2, 0.0) / m["shots"])
         if abs(r["value"] - m["exact_value"]) > 6 * sigma:
-            ctx.violation(key_of("mc:", [m["ops"], m["seed"], m["shots"]]),
-                          {"n": m["n"], "ops": m["ops"], "sample_wires": m["swires"], "z_parity_wires": m["zwires"], "shots": m["shots"], "seed": m["seed"],
-                           "cut_circuit_mc": r["value"], "exact_uncut": m["exact_value"], "six_sigma": 6 * sigma},
+            mc_fail.append({"n": m["n"], "ops": m["ops"], "sample_wires": m["swires"], "z_parity_wires": m["zwires"], "shots": m["shots"],
+                            "seed": m["seed"], "designed_GHZ_case": bool(m.get("designed")),
+                            "cut_circuit_mc": r["value"], "exact_uncut": m["exact_value"], "six_sigma": 6 * sigma})
+    probe = post.get("joint_probe") or {}
+    not_joint = probe.get("impossible_projector_pauli", 0) + probe.get("impossible_projector_projector", 0) > 0
+    if not_joint and (mc_fail or True):
+        # root cause established by the probe: one stable key for the defect and all its statistical consequences
+        ctx.violation("finding:cut_circuit_mc-samples-not-joint",
+                      {"probe": probe, "estimates_outside_six_sigma": mc_fail,
+                       "explanation": "cut_circuit_mc's single-shot fragment tapes measure sample(Projector([1], wires=w)) on terminal wires and sample(Pauli) on cut wires and "
+                                      "combine them as ONE joint shot; default.qubit (devices/qubit/sampling.py::_group_measurements) puts every non-Pauli-word observable in its own "
+                                      "group and samples each group independently, so correlations between terminal bits and cut-wire outcomes (and between terminal bits) are lost "
+                                      "and the reconstructed expectation value is biased",
+                       "reproduce": ["import pennylane as qp", "dev = qp.device('default.qubit', wires=3)",
+                                     "def circ():\n    qp.Hadamard(0); qp.CNOT([0, 1]); qp.WireCut(1); qp.CNOT([1, 2])\n    return qp.sample(wires=[0, 2])",
+                                     "zz = lambda b: (-1) ** int(b[0] + b[1])",
+                                     "print(qp.set_shots(qp.cut_circuit_mc(qp.QNode(circ, dev), classical_processing_fn=zz), shots=4000)())  # exact <Z0 Z2> = +1, prints about 0"]},
+                      what="cut_circuit_mc is not statistically consistent with the uncut circuit on default.qubit: the measurements of one single-shot fragment tape are sampled independently instead of jointly")
+    else:
+        for f in mc_fail:
+            ctx.violation(key_of("mc:", [f["ops"], f["seed"], f["shots"]]), f,
                           what="cut_circuit_mc estimate is more than 6 sigma from the exact uncut expectation (statistical check)")
+    ctx.coverage["mc_joint_sampling_probe"] = probe
+    ctx.coverage["mc_estimates_outside_six_sigma"] = len(mc_fail)
     npy = ctx.coverage.pop("_npy", 0)
     hist = {}
     for c in ok:
@@ -294,7 +318,7 @@ def _run(ctx, sess, payload):
         "input_distribution": {"manual_cases": len(ok), "auto_cases": len(okauto), "auto_no_cut_found": sum(a["status"] == "nocut" for a in auto),
                                "auto_effective_cuts": [a.get("k") for a in okauto],
                                "not_extractable": sum(c["status"] == "notex" for c in cases + auto),
-                               "effective_cuts_histogram(per Pauli term)": hist, "sum_observables": sum(len(c["terms"]) > 1 for c in ok),
+                               "effective_cuts_histogram(per Pauli term)": hist, "sum_observables": sum(len(c["terms"]) > 1 for c in ok), "opt_einsum_pipeline_cases": sum("pipeline_opt" in c for c in ok),
                                "fragments_max": max([len(st["frags"]) for c in ok for st in c["t"]] or [0]),
                                "configuration_tapes_checked": nset, "exact_circuits_simulated": len(circs),
                                "exact_postprocessing_cases": len(items), "mc_runs": nmc, "contraction_cases_in_coq": len(terms) - 1, "contraction_cases_python_oracle": npy,
